@@ -140,7 +140,8 @@ func Harness_C01_rebuild_equals_live() {
 	case 8:
 		err = v.FS.Chown(name, 7, 8)
 	case 9:
-		err = v.FS.SymlinkIfPossible("/d/g", name)
+		// the target may be spelled with a trailing slash, a "." segment or a doubled slash
+		err = v.FS.SymlinkIfPossible([]string{"/d/g", "/d/", "/d/./g", "/d//g"}[vm.Choice("linkTarget", 4)], name)
 	}
 	if vm.Tier() == "thorough" {
 		// a history of two calls: the second one on a fixed set of names that interact with the first
